@@ -71,6 +71,17 @@ pub fn generate(g: &mut Gen, thorough: bool) {
         g.push(format!("S_C14\tgeod\t{ellps}\tF\t{}", data_of(&gd)), "oracle-geodesic-ellipsoid", true);
         let gi: Vec<[f64; 4]> = (0..6).map(|_| [g.rng.uniform(-70.0, 70.0), g.rng.uniform(-170.0, 170.0), g.rng.uniform(-70.0, 70.0), g.rng.uniform(-170.0, 170.0)]).collect();
         g.push(format!("S_C14\tgeod\t{ellps}\tI\t{}", data_of(&gi)), "oracle-geodesic-ellipsoid", true);
+        // (nearly antipodal pairs, where the iteration takes tens or hundreds of rounds)
+        let anti: Vec<[f64; 4]> = (0..6)
+            .map(|i| {
+                let (lat1, lon1) = (g.rng.uniform(-30.0, 30.0), g.rng.uniform(-170.0, -10.0));
+                let off = [0.5, 0.7, 0.3, 1.0, 0.45, 2.0][i];
+                [lat1, lon1, -lat1 + off * g.rng.uniform(0.8, 1.2), lon1 + 180.0 - off * g.rng.uniform(0.5, 1.2)]
+            })
+            .chain([[0.0, 0.0, 0.5, 179.5], [0.0, 0.0, 0.5, 179.3], [0.0, 0.0, 0.5, 179.7]])
+            .collect();
+        g.push(format!("S_C14\tgeod\t{ellps}\tI\t{}", data_of(&anti)), "oracle-geodesic-ellipsoid-nearly-antipodal", true);
+        g.push(op_line("default", &[], &[], &format!("geodesic ellps={ellps}"), "apply", "I", &data_of(&anti)), "model-geodesic-nearly-antipodal", true);
         g.push(op_line("default", &[], &[], &format!("geodesic ellps={ellps}"), "apply", "F", &data_of(&gd)), "model-geodesic", true);
         g.push(op_line("default", &[], &[], &format!("geodesic ellps={ellps}"), "apply", "I", &data_of(&gi)), "model-geodesic", true);
         g.push(op_line("default", &[], &[], &format!("geodesic reversible ellps={ellps}"), "apply", "F", &data_of(&gd)), "model-geodesic", true);
@@ -138,6 +149,38 @@ pub fn generate(g: &mut Gen, thorough: bool) {
             g.push(format!("S_C14\tctx\t{}\t\t{}", escape(&def), data_of(&pts)), "oracle-minimal-plain-every-parameter", true);
         }
         g.push(format!("PROJ\t{}", escape(&def)), "geodesy-text-passes-through", true);
+    }
+    // ... and whatever was instantiated in the same context before: the built-in macros and their bodies, inverted
+    // and not, the every-parameter definitions, in shuffled order
+    {
+        let mut pool: Vec<String> = vec![];
+        for (name, body) in [("geo:in", "adapt from=neuf_deg"), ("geo:out", "adapt to=neuf_deg"), ("gis:in", "adapt from=enuf_deg"), ("gis:out", "adapt to=enuf_deg"), ("neu:in", "adapt from=neuf"), ("enu:out", "adapt to=enuf")] {
+            for d in [name.to_string(), format!("{name} inv"), body.to_string(), format!("{body} inv"), format!("{name} | addone"), format!("{name} inv | addone")] {
+                pool.push(d);
+            }
+        }
+        for def in c09::EVERY_PARAMETER {
+            if !def.contains("grids") {
+                pool.push(def.to_string());
+                pool.push(format!("{def} inv"));
+            }
+        }
+        for _ in 0..(if thorough { 200 } else { 24 }) {
+            let k = 3 + g.rng.below(6);
+            let mut defs: Vec<String> = (0..k).map(|_| g.rng.pick(&pool).clone()).collect();
+            // a macro inverted, then its body as written (what an identity of texts would confuse)
+            if g.rng.chance(1, 2) {
+                let (name, body) = *g.rng.pick(&[("geo:in", "adapt from=neuf_deg"), ("gis:out", "adapt to=enuf_deg"), ("neu:in", "adapt from=neuf")]);
+                defs.insert(0, format!("{name} inv"));
+                defs.push(body.to_string());
+                defs.push(name.to_string());
+            }
+            let pts: Vec<[f64; 4]> = (0..3).map(|_| [g.rng.uniform(-0.5, 0.5), g.rng.uniform(0.2, 1.2), g.rng.uniform(0.0, 100.0), 2020.0]).collect();
+            let mut f = vec!["S_C14H".to_string(), defs.len().to_string()];
+            f.extend(defs.iter().map(|d| escape(d)));
+            f.push(data_of(&pts));
+            g.push(f.join("\t"), "oracle-minimal-plain-histories", true);
+        }
     }
     // Minimal and Plain on every definition the library's own tests use (no grids, no resources)
     for def in c09::corpus() {
